@@ -9,6 +9,7 @@ func genRingCode(repo string) (string, error) {
 	body, err := Translate(repo, TransSpec{
 		Dir:     "ringz",
 		Structs: []string{"Ring"},
+		Expect:  map[string][]ExpectField{"Ring": {{"values", "[]T"}, {"head", "int"}, {"tail", "int"}, {"cap", "int"}}},
 		Funcs: []string{"New", "Ring.Init", "Ring.IsEmpty", "Ring.IsFull", "Ring.Push", "Ring.Pop", "Ring.Peek",
 			"Ring.PushWithExpand", "Ring.Len", "Ring.Cap", "Ring.Recap", "roundupPowOfTwo"},
 	})
